@@ -548,6 +548,10 @@ class FakeFile:
         self.closed = False
         self.binary = True
         self.fd = None
+        # user-space buffering (opt-in, e.g. for NamedTemporaryFile stand-ins): written data reach the file system -- and
+        # other processes, and other names of the inode -- only with flush() / close() / a seek or read
+        self.buffered = False
+        self._pending = b''
 
     def __enter__(self):
         return self
@@ -555,6 +559,12 @@ class FakeFile:
     def __exit__(self, *a):
         self.close()
         return False
+
+    def _flushbuf(self):
+        if self._pending:
+            data, self._pending = self._pending, b''
+            self.pos -= len(data)
+            self._write_through(data)
 
     def fileno(self):
         if self.fd is None:
@@ -572,6 +582,13 @@ class FakeFile:
         if not self.writable_:
             raise OSError(_errno.EBADF, 'not writable')
         data = self._enc(data)
+        if self.buffered:
+            self._pending += data
+            self.pos += len(data)
+            return len(data)
+        return self._write_through(data)
+
+    def _write_through(self, data):
         self.fs.tick('write', self.path, len(data))
         n = self.node
         if self.append:
@@ -585,6 +602,7 @@ class FakeFile:
     def read(self, size=-1):
         if not self.readable_:
             raise OSError(_errno.EBADF, 'not readable')
+        self._flushbuf()
         self.fs.tick('read', self.path, mutating=False)
         d = self.node.data
         if size is None or size < 0:
@@ -608,6 +626,7 @@ class FakeFile:
         return len(out)
 
     def seek(self, off, whence=0):
+        self._flushbuf()
         if whence == 0:
             self.pos = off
         elif whence == 1:
@@ -620,6 +639,7 @@ class FakeFile:
         return self.pos
 
     def truncate(self, size=None):
+        self._flushbuf()
         size = self.pos if size is None else size
         self.fs.tick('truncate', self.path, size)
         self.node.data = self.node.data[:size]
@@ -627,9 +647,11 @@ class FakeFile:
         return size
 
     def flush(self):
-        pass
+        self._flushbuf()
 
     def close(self):
+        if not self.closed:
+            self._flushbuf()
         self.closed = True
         if self.fd is not None:
             self.fs.fds.pop(self.fd, None)
